@@ -304,7 +304,7 @@ Definition hb_runs (stopped : list pid) (h : hbstate) : bool :=
   match hb_proc h with Some p => negb (mem_nat p stopped) | None => true end.
 Definition th_runs (stopped : list pid) (s : state) (t : tid) : bool := negb (mem_nat (cproc s t) stopped).
 
-Definition next_due (stopped : list pid) (s : state) : option (Z * label) :=
+Definition next_due (stopped : list pid) (lat : tid -> Z) (s : state) : option (Z * label) :=
   let hbs := map (fun i => if hb_runs stopped (hb s i) then
                            match hb s i with
                            | HSleep _ _ due => Some (due, LHbWake i)
@@ -312,7 +312,7 @@ Definition next_due (stopped : list pid) (s : state) : option (Z * label) :=
                            | _ => None
                            end else None) (seq 0 (nexti s)) in
   let ths := map (fun t => if th_runs stopped s t then
-                           match cs s t with CSleep _ u => Some (u, LWake t) | _ => None end
+                           match cs s t with CSleep _ u => Some (u + lat t, LWake t) | _ => None end
                            else None) (rev (tids s)) in
   fold_left min_due (hbs ++ ths) None.
 
@@ -347,7 +347,9 @@ Record sim := Sim {
   trace : list label;         (* the labels taken, newest first *)
   stopped : list pid;         (* processes between SIGSTOP and SIGCONT *)
   slow_rm : list (pid * Z);   (* processes whose unlink(2) calls are delayed (injected), and by how much *)
-  stale_at : list (tid * Z)   (* when each thread that is about to remove a stale file judged it stale *)
+  stale_at : list (tid * Z);  (* when each thread that is about to remove a stale file judged it stale *)
+  lat0 : Z;                   (* scheduling latency: every sleep of a Lock call lasts this much longer ... *)
+  lats : list (tid * Z)       (* ... plus this much for the listed threads *)
 }.
 
 Definition assoc {A} (k : nat) (l : list (nat * A)) : option A :=
@@ -364,7 +366,7 @@ Definition new_stale (s s' : state) : list (tid * Z) :=
 Definition take (m : sim) (l : label) : option sim :=
   match step (sst m) l with
   | Some s' => Some (Sim s' (script m) (cancelled m) (outlog m ++ new_outcomes (sst m) s') (l :: trace m) (stopped m)
-                         (slow_rm m) (new_stale (sst m) s' ++ stale_at m))
+                         (slow_rm m) (new_stale (sst m) s' ++ stale_at m) (lat0 m) (lats m))
   | None => None
   end.
 
@@ -416,7 +418,7 @@ Definition sim_step (m : sim) : option sim :=
                        (map (fun t => if th_runs st s t then
                                         match rm_due m t with Some d => Some (d, LRemove t) | None => None end
                                       else None) (rev (tids s)))
-                       (next_due st s) in
+                       (next_due st (fun t => lat0 m + match assoc t (lats m) with Some x => x | None => 0 end) s) in
   match script m, due with
   | (te, e) :: rest, _ =>
       let script_first := match due with Some (td, _) => te <=? td | None => true end in
@@ -428,7 +430,7 @@ Definition sim_step (m : sim) : option sim :=
                          | EStop p => p :: st
                          | ECont p => filter (fun q => negb (Nat.eqb q p)) st
                          | _ => st
-                         end) (slow_rm m) (stale_at m) in
+                         end) (slow_rm m) (stale_at m) (lat0 m) (lats m) in
           match e with
           | ECancel _ | EStop _ | ECont _ => Some m'   (* take effect at the next steps *)
           | _ => match take m' (label_of_event e) with Some m'' => Some m'' | None => Some m' end
